@@ -58,6 +58,10 @@ Proof.
     unfold stf, with_depth in *. simpl in *.
     apply app_nil_intro; auto. apply app_nil_intro; [apply H0; auto|apply H1; auto].
   - (* SEmit *) apply app_nil_inv in H0. destruct H0. split; auto. rewrite app_nil_r. auto.
+  - (* SLet2 *) apply app_nil_inv in H0. destruct H0. split; auto. apply app_nil_intro; auto.
+    apply view_assign_weaken; auto.
+  - (* SRemove *) apply app_nil_inv in H. destruct H. split; auto. rewrite app_nil_r.
+    apply view_assign_weaken; auto.
   - (* SCons *)
     apply app_nil_inv in H1. destruct H1 as [H1 H2].
     destruct (H G c H1) as [Ha Hb]. rewrite Hb.
